@@ -261,8 +261,11 @@ def r053(model, rep, ck):
         fi = arm.methods.get(name)
         if fi is None:
             continue
+        # the method with the class's private helpers inlined (the prefix slices may be produced by a helper)
+        from ..engine import peval as _pe
+        fnode = _pe.flatten({n_: f_.node for n_, f_ in arm.methods.items()}, fi.node, depth=2, stop=('thetaProtector',), impure=True)
         defs = {}
-        for n in walk_own(fi.node):
+        for n in walk_own(fnode):
             if isinstance(n, ast.Assign) and len(n.targets) == 1 and isinstance(n.targets[0], ast.Name):
                 defs.setdefault(n.targets[0].id, []).append(n.value)
 
@@ -283,7 +286,7 @@ def r053(model, rep, ck):
             if isinstance(e, (ast.Name, ast.Attribute)):
                 return src(e)
             return None
-        for cc in [x for x in walk_own(fi.node) if isinstance(x, ast.Call) and isinstance(x.func, ast.Attribute) and x.func.attr == 'FKinSpace']:
+        for cc in [x for x in walk_own(fnode) if isinstance(x, ast.Call) and isinstance(x.func, ast.Attribute) and x.func.attr == 'FKinSpace']:
             if len(cc.args) != 3:
                 rep.ob('R05.3', fi, src(cc)[:100], False, 'FKinSpace takes (home, screws, theta)', line=cc.lineno)
                 continue
